@@ -326,3 +326,99 @@ def group_dh_reviewed(ctx, rep, rule, sn):
             rep.ob(rule, 'KeGroup::%s is a reviewed scalar multiplication of the unmodified key arguments' % name, good,
                    'computes %s%s' % (show(val)[:200], (' using unreviewed %s' % unknown) if unknown else ''), w, sn, sample='%s = %s' % (name, show(val)[:120]))
     return n
+
+
+# dependency hash-to-scalar functions (RFC 9380 hash_to_field with expand_message_xmd, reduced into the scalar field) reviewed for DESIGN 3.6
+REVIEWED_H2S = {
+    'Group::hash_to_scalar': 'voprf::group::ristretto::Ristretto255',          # <voprf::Ristretto255 as voprf::Group>::hash_to_scalar::<H>
+    'elliptic_curve::hash2curve::group_digest::GroupDigest::hash_to_scalar': None,   # <C as GroupDigest>::hash_to_scalar::<ExpandMsgXmd<H>>, C = the KE curve
+}
+OPRF_HASH_MARK = {'r255': 'OidSha512', 'p256': 'OidSha256', 'p384': 'OidSha384', 'p521': 'OidSha512'}
+
+
+def _trailing_generics(path):
+    """type arguments of the function itself in an instance path `...::name::<A, B>`"""
+    if not path.endswith('>'):
+        return None
+    depth = 0
+    for i in range(len(path) - 1, -1, -1):
+        c = path[i]
+        if c == '>':
+            depth += 1
+        elif c == '<':
+            depth -= 1
+            if depth == 0:
+                return path[i + 1:-1] if path[:i].endswith('::') else None
+    return None
+
+
+def kegroup_h2s_reviewed(ctx, rep, rule, sn):
+    """KeGroup::hash_to_scalar::<H>(input, dst) is the reviewed dependency HashToScalar (expand_message_xmd over H) applied to the
+    unmodified (input, dst), H being the OPRF suite's hash; every Ok result is that value (DeriveDiffieHellmanKeyPair relies on it)"""
+    S = ctx.suite(sn)
+    P = suite_params(sn)
+    n = 0
+    bs = [b for b in S.bodies.values() if b.get('impl_trait_dpath') == 'opaque_ke::key_exchange::group::KeGroup' and b.get('name') == 'hash_to_scalar']
+    if P['ke'] == 'c25519':
+        return 0 if not bs else n       # Curve25519 overrides DeriveDiffieHellmanKeyPair (clamping, R09.7) and never hashes to a scalar
+    if len(bs) != 1:
+        rep.ob(rule, 'KeGroup::hash_to_scalar: exactly one instance is reached', False, 'instances=%d' % len(bs), '', sn)
+        return 0
+    b = bs[0]
+    s = ctx.summary(sn, b['generic_path'], params=[Sym('input'), Sym('dst')])
+    w = where_of(s)
+    own_h = _trailing_generics(b['path'])
+    rep.ob(rule, 'KeGroup::hash_to_scalar is instantiated with the OPRF suite\'s hash', own_h is not None and OPRF_HASH_MARK[P['oprf']] in own_h,
+           'H = %s, expected %s' % (own_h, OPRF_HASH_MARK[P['oprf']]), w, sn)
+    rep.ob(rule, 'KeGroup::hash_to_scalar explored completely with an Ok result', s.complete and bool(s.ok_paths), str(s.notes[:2]), w, sn)
+    for p in s.ok_paths:
+        v = p.payload
+        inner = v[1][1] if v[0] == 'fld' and v[2] == '0' and v[1][0] == 'as' and v[1][2] == 'Ok' else None
+        good = inner is not None and inner[0] == 'app' and inner[1] in REVIEWED_H2S and tuple(inner[2]) == (Sym('input'), Sym('dst'))
+        rep.ob(rule, 'KeGroup::hash_to_scalar returns the reviewed dependency HashToScalar of (input, dst), unmodified and in this order', good,
+               'returns %s' % show(v)[:200], w, sn, sample='hash_to_scalar(input, dst) = %s' % show(v)[:100])
+        if not good:
+            continue
+        # the type arguments of the dependency call: expander XMD over the same H
+        calls = [bb['term']['callee'] for bb in b['blocks'] if bb.get('term', {}).get('k') == 'call' and bb['term']['callee'].get('name') == 'hash_to_scalar']
+        okc = False
+        detail = 'no dependency call found'
+        if len(calls) == 1 and own_h:
+            c = calls[0]
+            args = c.get('args', [])
+            want_self = REVIEWED_H2S[inner[1]]
+            self_ok = (args[:1] == [want_self]) if want_self else bool(args) and ('KeGroup for %s>' % args[0]) in b['path']
+            h_ok = any(a == own_h or (a.endswith('ExpandMsgXmd<%s>' % own_h)) for a in args[1:])
+            other_h = [a for a in args[1:] if a not in ("'_",) and not (a == own_h or a.endswith('ExpandMsgXmd<%s>' % own_h))]
+            okc = self_ok and h_ok and not other_h
+            detail = 'callee %s type arguments %s' % (c.get('dpath'), [a[-90:] for a in args])
+        rep.ob(rule, 'KeGroup::hash_to_scalar: the dependency call uses expand_message_xmd over the same hash, on the key-exchange group itself', okc, detail, w, sn)
+        n += int(okc)
+    return n
+
+
+def kegroup_zero_test_reviewed(ctx, rep, rule, sn):
+    """KeGroup::is_zero_scalar(s) is a zero test of s itself (the non-zero filter of DeriveDiffieHellmanKeyPair)"""
+    S = ctx.suite(sn)
+    n = 0
+    for b in S.bodies.values():
+        if b.get('impl_trait_dpath') != 'opaque_ke::key_exchange::group::KeGroup' or b.get('name') != 'is_zero_scalar':
+            continue
+        s = ctx.summary(sn, b['generic_path'], params=[Sym('scalar')])
+        w = where_of(s)
+        good = len(s.paths) == 1 and s.complete
+        val = s.paths[0].value if s.paths else None
+        if good:
+            good = False
+            if val[0] == 'app' and val[1] == 'ff::Field::is_zero' and tuple(val[2]) == (Sym('scalar'),):
+                good = True
+            elif val[0] == 'app' and val[1] in ('ct_eq', 'eq') and len(val[2]) == 2 and Sym('scalar') in val[2]:
+                other = [a for a in val[2] if a != Sym('scalar')]
+                z = other[0] if other else None
+                if z is not None and z[0] == 'app' and z[1].endswith('Scalar::to_bytes') and len(z[2]) == 1:
+                    z = z[2][0]
+                good = z is not None and z[0] == 'bytes' and len(z[1]) > 0 and not any(z[1])
+        n += int(good)
+        rep.ob(rule, 'KeGroup::is_zero_scalar compares the scalar itself with zero', good, 'computes %s' % (show(val)[:160] if val is not None else None), w, sn,
+               sample='is_zero_scalar(s) = %s' % (show(val)[:100] if val is not None else None))
+    return n
